@@ -223,3 +223,25 @@ def big_families(rng, count):
         assert sum(vals) < (1 << 53)
         out.append({"vals": vals, "k": rng.randint(1, 4)})
     return out
+
+
+def window_tight_families(rng, count):
+    """instances whose optimal partitions have one outlier bin and all other bins equal - (s, s+e, ..., s+e) or (s, ..., s, s+e): the first-bin sum then
+    lies exactly on the edge of the admissible window of the sequential / recursive partitioners, and the pruning bound of CKK is met with equality"""
+    out = []
+    for i in range(count):
+        k = rng.choice([3, 3, 4, 4, 5])
+        s = rng.randint(8, 24)
+        e = rng.randint(1, 3)
+        sums = [s] + [s + e] * (k - 1) if i % 2 == 0 else [s] * (k - 1) + [s + e]
+        vals = []
+        for t in sums:
+            parts = rng.randint(1, 3)
+            cuts = sorted(rng.randint(1, t - 1) for _ in range(parts - 1))
+            vals += [b - a for a, b in zip([0] + cuts, cuts + [t]) if b - a > 0]
+        if i % 5 == 0:
+            vals.append(0)
+        vals = vals[:10 if k <= 4 else 8]
+        rng.shuffle(vals)
+        out.append({"vals": vals, "k": k, "only": ["rnp", "snp", "ckk"] if (k <= 3 or len(vals) <= 8) else ["rnp", "snp"]})
+    return out
